@@ -496,6 +496,12 @@ func (v *Version) isPyPIDev() bool {
 	return ext.isDev()
 }
 
+// isPyPIMin reports whether the version is the synthetic minimum version
+// returned by PyPI.MinVersion rather than one written by the user.
+func (v *Version) isPyPIMin() bool {
+	return v.sys == PyPI && v.str == pypiMinVersion.str
+}
+
 // compare uses PEP440's rules to decide the ordering of p and e.
 func (p *pep440Extension) compare(e extension) int {
 	q := e.(*pep440Extension)
